@@ -780,4 +780,38 @@ pub async fn convert_tiles_container(
     dict(p="C11", id="ctl-csv-double-pattern-rewritten", file="versatiles_geometry/src/geo/value.rs", control=True, checks=["C11"],
          old='r"^\\-?\\d*\\.\\d+$"', new='r"^-?[0-9]*[.][0-9]+$"',
          why="the same language written differently"),
+    dict(p="C09", id="ctl-geobbox-check-negative-form", file="versatiles_core/src/types/geo_bbox.rs", control=True, checks=["C09", "C06", "C19"],
+         old="""		ensure!(self.0 >= -180., "x_min ({}) must be >= -180", self.0);
+		ensure!(self.1 >= -90., "y_min ({}) must be >= -90", self.1);
+		ensure!(self.2 <= 180., "x_max ({}) must be <= 180", self.2);
+		ensure!(self.3 <= 90., "y_max ({}) must be <= 90", self.3);
+		ensure!(self.0 <= self.2, "x_min ({}) must be <= x_max ({})", self.0, self.2);
+		ensure!(self.1 <= self.3, "y_min ({}) must be <= y_max ({})", self.1, self.3);""",
+         new="""		let (x_min, y_min, x_max, y_max) = self.as_tuple();
+		if x_min < -180. || y_min < -90. || x_max > 180. || y_max > 90. {
+			anyhow::bail!("{self:?} must be within [-180, -90, 180, 90]");
+		}
+		if x_min > x_max || y_min > y_max {
+			anyhow::bail!("{self:?} must be ordered as [x_min, y_min, x_max, y_max]");
+		}""",
+         why="check() alone lets NaN pass, but TileCoord2::from_geo still rejects it: the filter path is unchanged"),
+    dict(p="C09", id="geobbox-nan-passes-both-guards", file="versatiles_core/src/types/geo_bbox.rs", checks=["C09"],
+         old="""		ensure!(self.0 >= -180., "x_min ({}) must be >= -180", self.0);
+		ensure!(self.1 >= -90., "y_min ({}) must be >= -90", self.1);
+		ensure!(self.2 <= 180., "x_max ({}) must be <= 180", self.2);
+		ensure!(self.3 <= 90., "y_max ({}) must be <= 90", self.3);
+		ensure!(self.0 <= self.2, "x_min ({}) must be <= x_max ({})", self.0, self.2);
+		ensure!(self.1 <= self.3, "y_min ({}) must be <= y_max ({})", self.1, self.3);""",
+         new="""		ensure!(!(self.0 < -180.), "x_min ({}) must be >= -180", self.0);
+		ensure!(!(self.1 < -90.), "y_min ({}) must be >= -90", self.1);
+		ensure!(!(self.2 > 180.), "x_max ({}) must be <= 180", self.2);
+		ensure!(!(self.3 > 90.), "y_max ({}) must be <= 90", self.3);
+		ensure!(!(self.0 > self.2), "x_min ({}) must be <= x_max ({})", self.0, self.2);
+		ensure!(!(self.1 > self.3), "y_min ({}) must be <= y_max ({})", self.1, self.3);""",
+         why="negated range tests accept NaN; second edit removes the other guard",
+         edits=[("""		ensure!(x >= -180., "x must be >= -180");
+		ensure!(x <= 180., "x must be <= 180");
+		ensure!(y >= -90., "y must be >= -90");
+		ensure!(y <= 90., "y must be <= 90");
+""", "", "versatiles_core/src/types/tile_coords.rs")]),
 ]
